@@ -93,6 +93,19 @@ def check(sh, doc, sseed, suite):
     except Exception as e:  # noqa
         sh.violation('on', f'on:dbml-raises:{type(e).__name__}', str(e), case)
         return
+    # editing the properties of one property-less object in place must not show up anywhere else
+    bare = [c for t in on.tables for c in t.columns if not c.properties] + [t for t in on.tables if not t.properties]
+    if len(bare) >= 2:
+        bare[0].properties['injected_key'] = 'injected value'
+        leaked = [type(x).__name__ for x in bare[1:] if x.properties]
+        again, _e = parse(text, allow_properties=True)
+        if again is not None:
+            leaked += ['later parse:' + type(x).__name__ for t in again.tables for x in [t] + list(t.columns)
+                       if 'injected_key' in x.properties]
+        sh.count('obs.inplace_property_edits')
+        if leaked:
+            sh.violation('on', 'on:properties-dict-shared-between-objects', f'editing one object\'s properties in place changed {leaked[:4]}', case)
+        del bare[0].properties['injected_key']
     # flag flips on the live database
     try:
         on.allow_properties = False
